@@ -18,10 +18,15 @@ func Go(fn func()) {
 type Buffer []byte
 
 func GetBuf(size int) Buffer {
-	return bytespool.Get(size)
+	b := bytespool.Get(size)
+	verifOnGet(b)
+	return b
 }
 
 func ReleaseBuf(b Buffer) {
+	if verifOnRelease(b) {
+		return
+	}
 	bytespool.Release(b)
 }
 
